@@ -2,9 +2,11 @@ from props.hostile import FAMILY  # noqa: F401
 
 CHECK = dict(
     property='C16', level='exploration',
-    families=[('hostile', 1.0)],
+    families=[('hostile', 0.7), ('proofs', 0.1), ('stale', 0.2)],
     budget=dict(quick=55, thorough=900), max_runs=dict(quick=100_000, thorough=5_000_000),
-    rule=('each evaluation = one simulated run of the real server with a populated index, live good clients with '
+    rule=('in 30 % of the runs (families proofs, stale) well-formed requests of all kinds race with blocks, '
+          'reorganisations, mempool changes and slow disk reads, and no reply may carry INTERNAL_ERROR; otherwise '
+          'each evaluation = one simulated run of the real server with a populated index, live good clients with '
           'subscriptions and a mempool, in which a hostile client sends 60-300 requests one at a time through the '
           'real framer / JSON-RPC / dispatch path: every protocol method (and an unknown one) with one argument '
           'replaced by a value of a 52-value corpus of JSON shapes (null, booleans, negative / 2**31 / 2**63 / '
